@@ -91,12 +91,13 @@ def classify(step):
     grouping = k == "dist" and int(ck.get("flags", "0")) & GROUP_FLAG
     # kinds of the Groups that vanished without a restrict; the known in-place replacement only hits a Group of
     # strictly larger kind than the new one (user Group: kind= of the call; distances Groups: kind 900)
-    m_vk = re.search(r"vanished-group-kinds=(\S+)", step["hist"] or "")
+    m_vk = re.search(r"(?:vanished|changed)-group-kinds=(\S+)", step["hist"] or "")
     vkinds = [int(x) for x in m_vk.group(1).split(",") if x.lstrip("-").isdigit()] if m_vk else []
     newkind = 900 if k == "dist" else int(ck.get("kind", "0")) if k == "group" else None
     replaced_larger_only = bool(vkinds) and newkind is not None and all(v > newkind for v in vkinds)
     if k == "group" and ck.get("dm", "0") != "0" and vkinds:
         replaced_larger_only = True      # a dont_merge Group always takes over a mergeable one (same in-place replacement)
+    replaced = bool({"object-vanished-without-restrict", "userdata-changed", "group-attrs-changed"} & set(hc)) and bool(vkinds)
     zeroed = k == "group" and " gp=0" in res and "inserted" in res
     if wf_bad or chk_bad:
         model_disagrees = k == "group" and (step["model"] or "").startswith("model DIFF")
@@ -110,7 +111,7 @@ def classify(step):
             key = "distances-add-no-distances-uninitialised-grouping"
         elif grouping and "sets-missing" in clauses:
             key = "group-by-distances-objects-without-cpuset"
-        elif grouping and "object-vanished-without-restrict" in hc:
+        elif grouping and replaced:
             key = "group-by-distances-replaces-existing-group" if replaced_larger_only else "group-by-distances-replaces-group-of-not-larger-kind"
         elif grouping and ("total-memory" in clauses or "total_memory" in asrt):
             key = "group-by-distances-total-memory"
@@ -119,7 +120,7 @@ def classify(step):
         elif k == "group" and (clauses == ["children-order"] or (not clauses and "prev_first" in asrt)):
             # cpuset-only Group in a topology with offline PUs: placed by cpuset, siblings are ordered by complete_cpuset
             key = "group-by-cpuset-offline-pus-children-order"
-        elif k == "group" and "object-vanished-without-restrict" in hc and replaced_larger_only \
+        elif k == "group" and replaced and replaced_larger_only \
                 and clauses and set(clauses) <= {"complete-cpuset-not-in-parent", "complete-nodeset-not-in-parent"} and "objects=memory" in (step["wf"] or ""):
             # consequence of the known in-place replacement: the replaced Group had a wider complete set (disallowed PU/node
             # dropped at load) than the one rebuilt from the children, its memory children keep the wider one
@@ -157,10 +158,18 @@ def classify(step):
     if step["levels"] is not None and step["levels"] != "levels ok":
         out.append(("correspondence:levels:%s" % k, "model of hwloc_connect_levels disagrees with the implementation after `%s`" % call, not wf_bad, False))
     if hist_bad and not (wf_bad or chk_bad):
+        overwritten = bool({"userdata-changed", "group-attrs-changed", "identity-attrs-changed"} & set(hc)) and bool(vkinds)
+        model_ok = (step["model"] or "").startswith("model ok")
         if "group-depth-stale" in hc:
             # outside the C01 clauses, but observable (hwloc_get_type_depth_with_attr): Group depths not renumbered
             key = "restrict-stale-group-depth" if k == "restrict" else "group-depth-stale:%s" % k
-        elif "identity-attrs-changed" in hc:
+        elif k == "group" and overwritten:
+            # in-place replacement of an existing Group by the inserted one (gp_index kept since 6dba2e5; userdata, subtype,
+            # infos, kind overwritten): known only for a strictly smaller kind / a dont_merge Group, as the model predicts
+            key = "group-merge-replaces-object-identity" if (replaced_larger_only and model_ok) else "group-merge-replaces-group-of-not-larger-kind"
+        elif grouping and overwritten:
+            key = "group-by-distances-replaces-existing-group" if replaced_larger_only else "group-by-distances-replaces-group-of-not-larger-kind"
+        elif "identity-attrs-changed" in hc or "group-attrs-changed" in hc:
             key = "identity-attrs-changed:%s" % k
         elif k == "group" and "object-vanished-without-restrict" in hc:
             key = "group-merge-replaces-object-identity" if replaced_larger_only else "group-merge-replaces-group-of-not-larger-kind"
